@@ -13,6 +13,10 @@
 // present / absent x failInfo x statusString) at the first of two URLs.
 // lifetime.go: tokens obtained through the real client and HELD while later
 // requests run through the same process, then serialised and judged.
+// legacy.go: what binds a legacy Microsoft token to a signature value (content
+// x messageDigest), on the sign, cache and verify (ClickOnce manifest) side.
+// eku.go: who may be a timestamp authority (extended key usage of the
+// authority's certificate x of its issuing CA).
 package main
 
 import (
@@ -110,6 +114,9 @@ const statusHang = -1
 
 var hangBehaviour = behaviour{Name: "hang-until-client-timeout"}
 
+// hangClientTimeout: timestamp.timeout in the hanging-authority scenarios (the smallest configurable).
+const hangClientTimeout = 1 * time.Second
+
 // statusStall: the authority sends 200, the headers and the first bytes of the
 // body, then nothing more. stallReleased counts stalls that ended because the
 // handler's own cap ran out, not because the client went away.
@@ -121,8 +128,78 @@ var stallReleased atomic.Int64
 
 func urlTime(idx int) time.Time { return baseTime.Add(time.Duration(idx) * time.Hour) }
 
-func startAuthority() *httptest.Server {
-	return httptest.NewServer(http.HandlerFunc(func(w http.ResponseWriter, r *http.Request) {
+// authorityServer is the loopback authority plus a record of the connections
+// it has accepted and not finished with, so that a scenario can be judged
+// after everything the client sent has been seen (quiesce).
+type authorityServer struct {
+	*httptest.Server
+	mu   sync.Mutex
+	busy map[net.Conn]bool // accepted; not idle, closed or taken over
+}
+
+// quiesce returns once every request the client sent before the call has
+// reached the handler: a client that gave up on a request (its own timeout)
+// may have done so before the authority got round to reading it, and that
+// request still counts as made. First a sentinel request of the harness's own:
+// the accept queue is first in first out and the server marks a connection
+// before it accepts the next, so when the sentinel is answered every earlier
+// connection is on record; then wait until none of them is being served. The
+// limit is a cap that only a starved process reaches: false = not quiescent,
+// the caller must not judge.
+func (a *authorityServer) quiesce(limit time.Duration) bool {
+	deadline := time.Now().Add(limit)
+	conn, err := net.DialTimeout("tcp", a.Listener.Addr().String(), limit)
+	if err != nil {
+		return false
+	}
+	conn.SetDeadline(deadline)
+	_, err = io.WriteString(conn, "GET /barrier HTTP/1.0\r\n\r\n")
+	if err == nil {
+		_, err = io.ReadAll(conn) // the server closes after answering HTTP/1.0
+	}
+	conn.Close()
+	if err != nil {
+		return false
+	}
+	for {
+		a.mu.Lock()
+		n := len(a.busy)
+		a.mu.Unlock()
+		if n == 0 {
+			return true
+		}
+		if time.Now().After(deadline) {
+			return false
+		}
+		time.Sleep(time.Millisecond)
+	}
+}
+
+const quiesceCap = 30 * time.Second
+
+func startAuthority() *authorityServer {
+	a := &authorityServer{busy: map[net.Conn]bool{}}
+	a.Server = httptest.NewUnstartedServer(authorityHandler())
+	a.Config.ConnState = func(c net.Conn, st http.ConnState) {
+		a.mu.Lock()
+		switch st {
+		case http.StateNew, http.StateActive:
+			a.busy[c] = true
+		default:
+			delete(a.busy, c)
+		}
+		a.mu.Unlock()
+	}
+	a.Start()
+	return a
+}
+
+func authorityHandler() http.Handler {
+	return http.HandlerFunc(func(w http.ResponseWriter, r *http.Request) {
+		if r.URL.Path == "/barrier" {
+			w.WriteHeader(204)
+			return
+		}
 		body, _ := io.ReadAll(r.Body)
 		var idx int
 		legacy := strings.HasPrefix(r.URL.Path, "/ms")
@@ -163,7 +240,7 @@ func startAuthority() *httptest.Server {
 		}
 		w.WriteHeader(status)
 		w.Write(resp)
-	}))
+	})
 }
 
 // answer builds the authority's reply for one behaviour.
@@ -191,6 +268,9 @@ func answer(b behaviour, idx int, legacy bool, body []byte) (int, []byte, bool) 
 			return 400, []byte("bad request"), false
 		}
 		o := tsa.TokenOpts{}
+		if content, ao, ok := legacyAnatomyOpts(b.Name, sigValue); ok {
+			return 200, authority.LegacyResp(content, t, ao), false
+		}
 		switch b.Name {
 		case "valid", "granted-with-mods", "wrong-nonce", "absent-nonce", "wrong-imprint-algorithm", "status-rejection", "status-waiting", "rejection-with-valid-token":
 			// the legacy protocol has no nonce/status: these are plain valid replies
@@ -386,7 +466,7 @@ func signPhase(p attachPath, nurls int, mode string) {
 			cfg.Keys[p.key()].Timestamp = true
 			cfg.Timestamp = &config.TimestampConfig{Timeout: 10}
 			if hang {
-				cfg.Timestamp.Timeout = 1
+				cfg.Timestamp.Timeout = int(hangClientTimeout / time.Second)
 			}
 			for i := 0; i < nurls; i++ {
 				cfg.Timestamp.URLs = append(cfg.Timestamp.URLs, fmt.Sprintf("%s/u%d", srv.URL, i))
@@ -407,6 +487,10 @@ func signPhase(p attachPath, nurls int, mode string) {
 						alphabet = append(alphabet, b)
 					}
 				}
+				// the two links between a legacy token and the signature value
+				// (legacy.go); "valid" and "wrong-imprint" above are the members
+				// with both links consistent
+				alphabet = append(alphabet, legacyAnatomy...)
 			}
 			if hang {
 				alphabet = []behaviour{behaviours[0], {Name: "http-500", Acceptable: false}, hangBehaviour, stallBehaviour}
@@ -423,17 +507,31 @@ func signPhase(p attachPath, nurls int, mode string) {
 					return second
 				}
 			}
-			st := mc.Explore(mc.Options{MaxDeviations: -1}, func(c *mc.Ctx) {
+			exploreOpts := mc.Options{MaxDeviations: -1}
+			if hang {
+				// the one family with a real-time element (the client's 1 s timeout): an
+				// execution that does not repeat its prefix is run again, then given up
+				exploreOpts.RetryDivergence = 2
+			}
+			st := mc.Explore(exploreOpts, func(c *mc.Ctx) {
 				var seq []string
 				var chosen []behaviour
 				asked := map[int]int{}
+				var arrivals []time.Time // when each request reached the authority
+				var seqMu sync.Mutex     // a request may reach the handler after the client gave up on it
 				srvMu.Lock()
 				current = func(idx int, legacy bool, body []byte) (int, []byte, bool) {
-					asked[idx]++
-					al := alphabetOf(idx)
-					b := al[c.Choose(len(al), fmt.Sprintf("url%d", idx))]
-					seq = append(seq, fmt.Sprintf("u%d:%s", idx, b.Name))
-					chosen = append(chosen, b)
+					b := func() behaviour {
+						seqMu.Lock()
+						defer seqMu.Unlock()
+						asked[idx]++
+						arrivals = append(arrivals, time.Now())
+						al := alphabetOf(idx)
+						b := al[c.Choose(len(al), fmt.Sprintf("url%d", idx))]
+						seq = append(seq, fmt.Sprintf("u%d:%s", idx, b.Name))
+						chosen = append(chosen, b)
+						return b
+					}()
 					return answer(b, idx, legacy, body)
 				}
 				srvMu.Unlock()
@@ -467,6 +565,19 @@ func signPhase(p attachPath, nurls int, mode string) {
 					serr = relicx.SignStandalone(cfg, tok, relicx.SignReq{SigType: p.SigType, Key: p.key(), Hash: crypto.SHA256, Flags: flags, In: in, Out: out})
 				}()
 				run.Eval(1)
+				// Everything the client sent counts, also what it stopped waiting for
+				// before the authority read it (1 s client timeout, busy machine).
+				seqMu.Lock()
+				short := len(seq) < nurls
+				seqMu.Unlock()
+				if hang || (serr != nil && short) {
+					if !srv.quiesce(quiesceCap) {
+						run.Capped(fmt.Sprintf("%s: connections to the authority were still being served %v after signing returned; that sequence was not judged", p.Name, quiesceCap))
+						return
+					}
+				}
+				seqMu.Lock()
+				defer seqMu.Unlock()
 				desc := fmt.Sprintf("%s, %d url(s), authorities answered [%s]", p.Name, nurls, strings.Join(seq, " "))
 				replay := map[string]any{"path": p.Name, "urls": nurls, "choices": c.Trace, "labels": c.Labels, "answers": seq}
 				if os.Getenv("C10_DEBUG") != "" && p.Legacy {
@@ -524,6 +635,13 @@ func signPhase(p attachPath, nurls int, mode string) {
 					run.Violation("ts-sign:input-modified:"+p.Name, desc, replay)
 				}
 				if want >= 0 {
+					if hang && len(seq) > want+1 && arrivals[want+1].Sub(arrivals[want]) >= hangClientTimeout {
+						// A client that goes on to the next URL a full timeout after a healthy
+						// authority was asked has timed out on it (busy machine), as it would on a
+						// hanging one: no verdict. One that goes on sooner has not, and is judged.
+						run.Capped("hang scenarios: a healthy authority's answer missed the 1 s client timeout (the next URL was asked a full timeout later); that sequence was not judged")
+						return
+					}
 					if len(seq) != want+1 {
 						run.Violation("ts-sign:request-after-acceptable-answer:"+p.Name, desc, replay)
 					}
@@ -589,6 +707,12 @@ func signPhase(p attachPath, nurls int, mode string) {
 					run.Violation(succeedsKey, desc+": signing succeeded with "+what, replay)
 					return
 				}
+				if lastURL := fmt.Sprintf("/u%d\"", nurls-1); len(seq) != nurls && hang && (strings.Contains(serr.Error(), lastURL) || strings.Contains(serr.Error(), strings.Replace(lastURL, "/u", "/ms", 1))) {
+					// the client reports its timeout on the last URL, which the authority never saw: the
+					// request was given up before it left the process (starved machine): no verdict
+					run.Capped("hang scenarios: the client timed out on a URL before its request reached the authority; that sequence was not judged")
+					return
+				}
 				if len(seq) != nurls {
 					// gave up before asking everybody
 					run.Violation("ts-sign:no-failover-after:"+last+":"+p.Name, desc+": "+serr.Error(), replay)
@@ -600,6 +724,9 @@ func signPhase(p attachPath, nurls int, mode string) {
 			})
 			run.AddStates(st.Executions)
 			run.AddTransitions(st.ChoicePoints)
+			if st.Diverged > 0 {
+				run.Capped(fmt.Sprintf("hang scenarios (%s): %d sequence(s) could not be repeated as a prefix (timing on a busy machine) and were not explored further", p.Name, st.Diverged))
+			}
 			label := "sign_sequences"
 			if hang {
 				label = "sign_sequences_with_hanging_authority"
@@ -816,8 +943,12 @@ func verifyPhase() {
 		has     bool
 		grafted bool
 		authOID bool
+		// counter: a legacy countersignature attribute (a bare SignerInfo whose
+		// messageDigest is the digest of the signature value) instead of a token
+		counter bool
 	}
-	variants := []variant{{name: "none"}, {name: "valid", has: true}, {name: "valid(authenticode-oid)", has: true, authOID: true}, {name: "grafted-from-other-signature", has: true, grafted: true}}
+	variants := []variant{{name: "none"}, {name: "valid", has: true}, {name: "valid(authenticode-oid)", has: true, authOID: true}, {name: "grafted-from-other-signature", has: true, grafted: true},
+		{name: "legacy-countersignature", has: true, counter: true}, {name: "legacy-countersignature-grafted-from-other-signature", has: true, counter: true, grafted: true}}
 	// One set of trust options for every case, as `relic verify --cert ca.pem a b c`
 	// has for all its files, and the whole list judged twice, forwards and
 	// backwards: a verdict must not depend on what was verified before it.
@@ -850,13 +981,18 @@ func verifyPhase() {
 							if v.grafted {
 								over = append([]byte("another signature value "), sigValue...)
 							}
+							if v.counter {
+								addCounterSignature(psd, ta.a, over, at, tsa.TokenOpts{})
+							}
 							h := sha256.Sum256(over)
 							tokDER := ta.a.Token(tsa.TokenOpts{HashAlg: tsa.SHA256Alg(), Imprint: h[:], Nonce: big.NewInt(7), GenTime: at})
 							tok, err := pkcs7.Unmarshal(tokDER)
 							if err != nil {
 								panic(err)
 							}
-							if v.authOID {
+							if v.counter {
+								// attached above
+							} else if v.authOID {
 								err = pkcs9.AddStampToSignedAuthenticode(&psd.Content.SignerInfos[0], *tok)
 							} else {
 								err = pkcs9.AddStampToSignedData(&psd.Content.SignerInfos[0], *tok)
@@ -1033,7 +1169,38 @@ func flipAt(b []byte, i int) []byte {
 	return out
 }
 
+// cacheStyle: which protocol the cache phase drives. The RFC 3161 style signs
+// PowerShell scripts; the legacy style signs ClickOnce manifests with
+// --rfc3161-timestamp=false (the only attach path that asks a legacy
+// authority), and adds the cache contents of legacy.go: legacy tokens whose
+// content / messageDigest links are broken one at a time.
+type cacheStyle struct {
+	legacy         bool
+	label          string // "" or "(legacy)": part of outcome labels and violation keys
+	sigType        string
+	name           string
+	flags          url.Values
+	inputA, inputB string
+}
+
 func cachePhase() {
+	cachePhaseFor(cacheStyle{sigType: "ps", name: "c.ps1", inputA: "Write-Host 'cache case A'\r\n", inputB: "Write-Host 'cache case B, another signature'\r\n"})
+}
+
+func legacyCachePhase() {
+	blob, err := os.ReadFile(filepath.Join(relicx.Packages, "WindowsFormsApplication1.exe.manifest"))
+	if err != nil {
+		panic(err)
+	}
+	a := string(blob)
+	b := strings.Replace(a, `version="1.2.3.4"`, `version="1.2.3.5"`, 1)
+	if a == b {
+		panic("legacy cache phase: the sample manifest has no version=\"1.2.3.4\" to vary")
+	}
+	cachePhaseFor(cacheStyle{legacy: true, label: "(legacy)", sigType: "appmanifest", name: "c.exe.manifest", flags: url.Values{"rfc3161-timestamp": {"false"}}, inputA: a, inputB: b})
+}
+
+func cachePhaseFor(style cacheStyle) {
 	srv, dir := startAuthority(), scratchDir()
 	defer srv.Close()
 	defer os.RemoveAll(dir)
@@ -1041,7 +1208,7 @@ func cachePhase() {
 	defer mcache.ln.Close()
 	cfg := relicx.BaseConfig("file")
 	cfg.Keys["rsaA"].Timestamp = true
-	cfg.Timestamp = &config.TimestampConfig{Timeout: 10, URLs: []string{srv.URL + "/u0"}, Memcache: []string{mcache.ln.Addr().String()}}
+	cfg.Timestamp = &config.TimestampConfig{Timeout: 10, URLs: []string{srv.URL + "/u0"}, MsURLs: []string{srv.URL + "/ms0"}, Memcache: []string{mcache.ln.Addr().String()}}
 	relicx.Use(cfg)
 	tok, err := relicx.OpenTokenByKey(cfg, "rsaA")
 	if err != nil {
@@ -1049,9 +1216,19 @@ func cachePhase() {
 	}
 	asked := 0
 	var authority behaviour
+	var lastLegacyValue []byte // the signature value of the last legacy request
 	srvMu.Lock()
 	current = func(idx int, legacy bool, body []byte) (int, []byte, bool) {
 		asked++
+		if legacy != style.legacy {
+			fmt.Println("HARNESS-ERROR: cache phase: the request went to the other protocol's authority")
+			os.Exit(2)
+		}
+		if legacy {
+			if v, err := tsa.LegacyQuery(body); err == nil {
+				lastLegacyValue = append([]byte{}, v...)
+			}
+		}
 		return answer(authority, idx, legacy, body)
 	}
 	srvMu.Unlock()
@@ -1062,16 +1239,23 @@ func cachePhase() {
 		if err := os.WriteFile(in, []byte(input), 0o644); err != nil {
 			panic(err)
 		}
-		return out, relicx.SignStandalone(cfg, tok, relicx.SignReq{SigType: "ps", Key: "rsaA", Hash: crypto.SHA256, Flags: url.Values{}, In: in, Out: out})
+		flags := url.Values{}
+		for k, v := range style.flags {
+			flags[k] = v
+		}
+		return out, relicx.SignStandalone(cfg, tok, relicx.SignReq{SigType: style.sigType, Key: "rsaA", Hash: crypto.SHA256, Flags: flags, In: in, Out: out})
 	}
-	scriptA := "Write-Host 'cache case A'\r\n"
-	scriptB := "Write-Host 'cache case B, another signature'\r\n"
+	scriptA, scriptB := style.inputA, style.inputB
+	var valueA []byte
 	// populate: A and B each signed once with a valid authority
 	authority = behaviours[0]
-	for _, s := range []string{scriptA, scriptB} {
-		if _, err := sign(s, "c.ps1"); err != nil {
+	for i, s := range []string{scriptA, scriptB} {
+		if _, err := sign(s, style.name); err != nil {
 			fmt.Println("HARNESS-ERROR: cache phase: populating signing fails:", err)
 			os.Exit(2)
+		}
+		if i == 0 {
+			valueA = lastLegacyValue
 		}
 	}
 	mcache.mu.Lock()
@@ -1088,7 +1272,7 @@ func cachePhase() {
 	mcache.mu.Lock()
 	mcache.gets = nil
 	mcache.mu.Unlock()
-	if _, err := sign(scriptA, "c.ps1"); err != nil {
+	if _, err := sign(scriptA, style.name); err != nil {
 		fmt.Println("HARNESS-ERROR: cache phase: re-signing fails:", err)
 		os.Exit(2)
 	}
@@ -1099,25 +1283,39 @@ func cachePhase() {
 		run.Capped("timestamp cache: a repeated signature did not ask for the same cache key (signatures are not deterministic here); cache scenarios not explored")
 		return
 	}
-	entries := []struct {
+	type cacheEntry struct {
 		name       string
 		value      []byte
 		acceptable bool // the cached value is a token that matches signature A
 		failGet    bool
-	}{
-		{"genuine-token-of-this-signature", genuineA, true, false},
-		{"absent", nil, false, false},
-		{"garbage", []byte("this is not a token"), false, false},
-		{"truncated-token", genuineA[:len(genuineA)/2], false, false},
-		{"genuine-token-of-another-signature", genuineB, false, false},
-		{"empty-value", []byte{}, false, false},
+		// either: the statement does not decide whether this token covers the
+		// signature (legacy.go); serving it and asking the authority are both in order
+		either bool
+	}
+	entries := []cacheEntry{
+		{name: "genuine-token-of-this-signature", value: genuineA, acceptable: true},
+		{name: "absent"},
+		{name: "garbage", value: []byte("this is not a token")},
+		{name: "truncated-token", value: genuineA[:len(genuineA)/2]},
+		{name: "genuine-token-of-another-signature", value: genuineB},
+		{name: "empty-value", value: []byte{}},
 		// the right imprint, but the authority's signature does not hold: an entry
 		// damaged in the store, or written there by someone else (memcached has no
 		// authentication); last byte = end of the signature value, middle of the
 		// last 300 bytes = inside the signed attributes / signature
-		{"token-of-this-signature-with-damaged-signature-value", flipAt(genuineA, len(genuineA)-1), false, false},
-		{"token-of-this-signature-damaged-near-its-end", flipAt(genuineA, len(genuineA)-150), false, false},
-		{"connection-dropped", genuineA, false, true},
+		{name: "token-of-this-signature-with-damaged-signature-value", value: flipAt(genuineA, len(genuineA)-1)},
+		{name: "token-of-this-signature-damaged-near-its-end", value: flipAt(genuineA, len(genuineA)-150)},
+		{name: "connection-dropped", value: genuineA, failGet: true},
+	}
+	if style.legacy {
+		if len(valueA) == 0 {
+			fmt.Println("HARNESS-ERROR: legacy cache phase: the authority did not see the signature value of the first request")
+			os.Exit(2)
+		}
+		// tokens of the genuine authority for this key, every combination of the two links
+		for _, m := range legacyTokenMatrix(valueA) {
+			entries = append(entries, cacheEntry{name: m.name, value: tsa.Fixture().LegacyDER(m.content, baseTime, m.opts), acceptable: m.covers, either: m.either})
+		}
 	}
 	auth := []behaviour{behaviours[0], {Name: "wrong-imprint", Acceptable: false}, {Name: "http-500"}}
 	n := 0
@@ -1134,17 +1332,17 @@ func cachePhase() {
 				mcache.mu.Unlock()
 				authority = a
 				asked = 0
-				out, serr := sign(scriptA, "c.ps1")
+				out, serr := sign(scriptA, style.name)
 				n++
 				run.Eval(1)
-				desc := fmt.Sprintf("timestamp cache holds %s for this signature, store accepts new entries: %v, authority would answer %s (asked %d time(s))", e.name, !failSet, a.Name, asked)
-				replay := map[string]any{"cache_entry": e.name, "store_fails": failSet, "authority": a.Name}
-				run.Distinct("cache|" + e.name + fmt.Sprint(failSet) + a.Name)
+				desc := fmt.Sprintf("timestamp cache%s holds %s for this signature, store accepts new entries: %v, authority would answer %s (asked %d time(s))", style.label, e.name, !failSet, a.Name, asked)
+				replay := map[string]any{"cache_entry": e.name, "store_fails": failSet, "authority": a.Name, "legacy": style.legacy}
+				run.Distinct("cache" + style.label + "|" + e.name + fmt.Sprint(failSet) + a.Name)
 				switch {
-				case e.acceptable:
+				case e.acceptable || (e.either && asked == 0 && serr == nil):
 					// a matching cached token may be used, or the authority asked anyway
 					if serr != nil && (asked == 0 || a.Acceptable) {
-						run.Violation("ts-cache:fails-despite-matching-cached-token", desc+": "+serr.Error(), replay)
+						run.Violation("ts-cache"+style.label+":fails-despite-matching-cached-token", desc+": "+serr.Error(), replay)
 						continue
 					}
 				case !a.Acceptable:
@@ -1155,34 +1353,34 @@ func cachePhase() {
 						} else if len(sigs) > 0 && sigs[len(sigs)-1].X509Signature.CounterSignature == nil {
 							what = "an artifact without timestamp"
 						}
-						run.Violation("ts-cache:succeeds-without-acceptable-timestamp:"+e.name, desc+": signing produced "+what, replay)
+						run.Violation("ts-cache"+style.label+":succeeds-without-acceptable-timestamp:"+e.name, desc+": signing produced "+what, replay)
 						continue
 					}
 				default:
 					if serr != nil {
-						run.Violation("ts-cache:unusable-entry-not-bypassed:"+e.name, desc+": "+serr.Error(), replay)
+						run.Violation("ts-cache"+style.label+":unusable-entry-not-bypassed:"+e.name, desc+": "+serr.Error(), replay)
 						continue
 					}
 					if asked == 0 {
-						run.Violation("ts-cache:unusable-entry-used:"+e.name, desc, replay)
+						run.Violation("ts-cache"+style.label+":unusable-entry-used:"+e.name, desc, replay)
 						continue
 					}
 				}
 				if serr != nil {
 					if _, err := os.Stat(out); err == nil {
-						run.Violation("ts-cache:artifact-left-after-failure", desc, replay)
+						run.Violation("ts-cache"+style.label+":artifact-left-after-failure", desc, replay)
 					}
-					run.Outcome("cache:" + e.name + ":refused")
+					run.Outcome("cache" + style.label + ":" + e.name + ":refused")
 					continue
 				}
 				sigs, verr := relicx.Verify(out, relicx.TrustOpts())
 				if verr != nil || len(sigs) == 0 {
-					run.Violation("ts-cache:output-does-not-verify:"+e.name, fmt.Sprintf("%s: %v", desc, verr), replay)
+					run.Violation("ts-cache"+style.label+":output-does-not-verify:"+e.name, fmt.Sprintf("%s: %v", desc, verr), replay)
 					continue
 				}
 				cs := sigs[len(sigs)-1].X509Signature.CounterSignature
 				if cs == nil {
-					run.Violation("ts-cache:timestamp-silently-omitted:"+e.name, desc, replay)
+					run.Violation("ts-cache"+style.label+":timestamp-silently-omitted:"+e.name, desc, replay)
 					continue
 				}
 				// a poisoned entry must not survive a successful fall-through, and what is stored must be usable
@@ -1191,18 +1389,18 @@ func cachePhase() {
 				mcache.mu.Unlock()
 				if has && !failSet && asked > 0 && a.Acceptable {
 					if _, err := pkcs7.Unmarshal(stored); err != nil {
-						run.Violation("ts-cache:unusable-entry-left-in-place:"+e.name, desc, replay)
+						run.Violation("ts-cache"+style.label+":unusable-entry-left-in-place:"+e.name, desc, replay)
 					}
 				}
 				if asked > 0 {
-					run.Outcome("cache:" + e.name + ":authority-asked")
+					run.Outcome("cache" + style.label + ":" + e.name + ":authority-asked")
 				} else {
-					run.Outcome("cache:" + e.name + ":served-from-cache")
+					run.Outcome("cache" + style.label + ":" + e.name + ":served-from-cache")
 				}
 			}
 		}
 	}
-	run.Set("timestamp_cache_cases", n)
+	run.Set("timestamp_cache_cases"+style.label, n)
 }
 
 func main() {
@@ -1214,11 +1412,33 @@ func main() {
 	tasks = append(tasks, signTasks("status")...)
 	tasks = append(tasks, lifetimeTasks()...)
 	tasks = append(tasks, cachePhase, constructionPhase, verifyPhase)
+	tasks = append(tasks, legacyCachePhase, legacyVerifyPhase, ekuPhase)
+	// development: C10_ONLY=sign|hang|status|lifetime|cache|legacy-cache|verify|legacy-verify|eku|construction runs that phase (group) alone
+	if only := os.Getenv("C10_ONLY"); only != "" {
+		if group, ok := map[string][]func(){"sign": signTasks(""), "hang": signTasks("hang"), "status": signTasks("status"), "lifetime": lifetimeTasks()}[only]; ok {
+			tasks = group
+			only = ""
+		}
+		f, ok := map[string]func(){"": nil, "cache": cachePhase, "legacy-cache": legacyCachePhase, "verify": verifyPhase, "legacy-verify": legacyVerifyPhase, "eku": ekuPhase, "construction": constructionPhase}[only]
+		if !ok {
+			fmt.Println("HARNESS-ERROR: unknown C10_ONLY phase", only)
+			os.Exit(2)
+		}
+		if f != nil {
+			tasks = []func(){f}
+		}
+	}
 	if run.Fork(len(tasks)) {
-		run.Rule("sign side: every sequence of authority behaviours (16 for RFC 3161, 9 for the legacy protocol) over 1-2 (thorough 3) configured URLs, explored as a choice tree that ends at the first acceptable answer, x 9 attach paths (5 with an RSA key, 3 with ECDSA P-256, cosign's annotation read by the harness itself), through the real pipeline and HTTP client against a loopback authority; verify side: 3 leaf validity windows x {no token, valid token under either OID, token grafted from another signature} x 4 authorities x 7 attested times, all cases under one shared trust pool and judged twice (list forwards, then backwards). states = executions; distinct_nontrivial = sign sequences with >=2 requests + verify cases. Hanging authorities: every sequence over {valid, http-500, never answers} for 2 (thorough 3) URLs under a 1 s client timeout, on one RFC 3161 and the legacy path. Timestamp cache: a loopback memcached owned by the harness; 7 cache contents for this signature's key x store accepts / refuses new entries x 3 authority answers, through the real gomemcache client. Status family (RFC 3161 attach paths, 2 URLs): the first authority answers with every member of {18 PKIStatus values: 0..5, -1, 6, and values that become 0 or 1 when cut to 8/16/32 bits, negative and positive, one beyond 64 bits} x {no token, the valid token for this request} (x {failInfo absent, empty, badAlg, badRequest, systemFailure} x {statusString absent, present} on the ps path; thorough: on every path), the second with {valid, rejection}; only status 0 and 1 with the token may end in that token being attached (0/1 with failure bits: either reading accepted). Token lifetime (one process per client configuration: plain, rate-limited, memcached; tsclient.New, GOMAXPROCS 1): every history of 3 (thorough 4) requests over {RFC 3161 x 4 reply shapes, legacy x 3 reply shapes} plus the first request repeated, every token held so far serialised and judged again after every later reply; then 3 requests in flight at once with the replies released one at a time in each of the 6 orders or all together, RFC 3161 and legacy")
+		run.Rule("sign side: every sequence of authority behaviours (16 for RFC 3161, 13 for the legacy protocol: 9 + the 4 legacy tokens of the content / messageDigest matrix below that are not among them) over 1-2 (thorough 3) configured URLs, explored as a choice tree that ends at the first acceptable answer, x 9 attach paths (5 with an RSA key, 3 with ECDSA P-256, cosign's annotation read by the harness itself), through the real pipeline and HTTP client against a loopback authority; verify side: 3 leaf validity windows x {no token, valid token under either OID, token grafted from another signature, legacy countersignature attribute of this / of another signature value} x 4 authorities x 7 attested times, all cases under one shared trust pool and judged twice (list forwards, then backwards). states = executions; distinct_nontrivial = sign sequences with >=2 requests + verify cases. Hanging authorities: every sequence over {valid, http-500, never answers} for 2 (thorough 3) URLs under a 1 s client timeout, on one RFC 3161 and the legacy path. Timestamp cache: a loopback memcached owned by the harness; 9 cache contents for this signature's key x store accepts / refuses new entries x 3 authority answers, through the real gomemcache client. Status family (RFC 3161 attach paths, 2 URLs): the first authority answers with every member of {18 PKIStatus values: 0..5, -1, 6, and values that become 0 or 1 when cut to 8/16/32 bits, negative and positive, one beyond 64 bits} x {no token, the valid token for this request} (x {failInfo absent, empty, badAlg, badRequest, systemFailure} x {statusString absent, present} on the ps path; thorough: on every path), the second with {valid, rejection}; only status 0 and 1 with the token may end in that token being attached (0/1 with failure bits: either reading accepted). Token lifetime (one process per client configuration: plain, rate-limited, memcached; tsclient.New, GOMAXPROCS 1): every history of 3 (thorough 4) requests over {RFC 3161 x 4 reply shapes, legacy x 3 reply shapes} plus the first request repeated, every token held so far serialised and judged again after every later reply; then 3 requests in flight at once with the replies released one at a time in each of the 6 orders or all together, RFC 3161 and legacy. Legacy token matrix (legacy.go): a legacy token is bound to a signature value by two links, content = the value and signed messageDigest = digest of the content, and the content itself is not signed; every token of {content: this value, another value, absent (detached)} x {messageDigest: of this value, of another value}, validly signed by the genuine authority, (a) as the reply of a legacy authority in the sign sequences above, (b) as the timestamp cache's entry for this signature's key (legacy cache phase: the RFC 3161 cache phase repeated through the appmanifest legacy attach path, 9 + 6 cache contents x store accepts / refuses x 3 authority answers), (c) as the as:Timestamp of a ClickOnce manifest signed through the real pipeline with a certificate valid today / expired in 2021 (the harness replaces the text of that unsigned element; plus no timestamp and an RFC 3161 token for this / another value) x attested time inside / after the expired certificate's lifetime (thorough: 5 times), judged by relic verify with chain checking; only content = this value with messageDigest = its digest covers the signature (absent content with the right digest: either verdict, tallied). Authority entitlement (eku.go): authority certificate extended key usage in {timeStamping only critical, timeStamping only not critical, timeStamping + codeSigning, codeSigning only, a private-arc purpose only, anyExtendedKeyUsage, no extension} x issuing CA (below the fixture intermediate) extended key usage in {no extension, timeStamping, clientAuth only, private-arc purpose only} (thorough: + timeStamping + clientAuth, anyExtendedKeyUsage) x {RFC 3161 token, legacy countersignature attribute} (thorough: + Authenticode OID) x signer certificate {valid today, expired in 2021}, attested time inside both lifetimes, judged by relic verify with chain checking against a three-valued table written from RFC 3161 2.3 and RFC 5280 4.2.1.12")
+		run.Assume("authority entitlement: must be accepted = extension lists exactly timeStamping, critical, under a CA without the extension or listing timeStamping (RFC 3161 2.3 and RFC 5280 agree; cross-checked at development time: `openssl verify -purpose timestampsign` accepts exactly these authority certificates); must be refused with an expired signer = the authority's extension is present and lists neither timeStamping nor anyExtendedKeyUsage, whether or not a library has names for what it lists, or the issuing CA's does (an issuing CA's extended key usage limits what is issued below it: Go crypto/x509, Windows CryptoAPI, NSS, CA/Browser Forum technically-constrained CAs; OpenSSL does not apply it to CA certificates: because implementations differ this half is TALLIED by default and asserted only with C10_EKU_NESTING=assert); everything else (no extension, anyExtendedKeyUsage, a second purpose, not critical; any authority when the signer is valid today anyway) is tallied in outcome_classes as eku:readings-differ / accepted=...")
 		run.Assume("token lifetime: a held token is judged by what it serialises to when its holder gets round to it: byte-identical to a token the authority issued for that request, or else (re-encoded) every SignerInfo verifies under the embedded certificates and the imprint / signed content is this signature value, decided by the harness's CMS walker and Go crypto (self-checked against right / wrong / damaged tokens at start); the client is never asked to keep more than 3 requests in flight, a client that does not overlap them within 45 s is reported as not judged")
 		run.Assume("acceptable = status granted (0) / granted-with-mods (1) and nothing else (RFC 3161 2.4.2: for any other value no token was issued), nonce echoed, imprint (algorithm and value) equal to the digest of this signature value, token signature valid under the embedded authority certificate")
 		run.Assume("the authority's tokens are built by verif/tsa (validated against `openssl ts -verify` at development time); a hanging authority holds the request open until the client's own timeout (1 s, the smallest configurable) closes it, a stalling one sends headers and three body bytes and then holds the connection (a client that is still waiting 30 s later, 30 times its configured timeout, has no deadline on the body): the only real-time waits in this check; when a healthy authority misses that timeout too the sequence is reported as not judged, never as a violation")
+		run.Set("bounds", map[string]any{
+			"legacy_token_matrix":          "content {this, another value, absent} x messageDigest {of this, of another value} = 6, on the sign, cache and verify side",
+			"authority_eku":                fmt.Sprintf("%d authority certificate classes x %d issuing CA classes (thorough %d) x 2 token styles (thorough 3) x 2 signer certificates", len(ekuLeaves), len(ekuIssuers), len(ekuIssuers)+len(ekuIssuersThorough)),
+			"legacy_verify_attested_times": "2 (thorough 5)",
+		})
 		run.Set("processes", len(tasks))
 		run.Finish()
 		return
